@@ -1,11 +1,59 @@
 import PyresampleModel.Model.Core
 
 /-
-  C16 — model (stub: not built yet).
+  C16 — the combinatorics of a geometry's boundary: the four index sides of `_get_bbox_slices`,
+  ring / contour assembly (`AreaBoundary.contour` drops each side's last vertex), reversal.
+  The per-side index selections (numpy's `linspace(..., dtype=int)`) enter as data.
+  Pixels are (row, col).
 -/
 namespace PyresampleModel.C16
 
+abbrev Px := Nat × Nat
+
+/-- `_get_bbox_slices` + `_get_sides`: top (row 0), right (last column), bottom (last row, reversed
+columns), left (first column, reversed rows); `selB` and `selL` are given as the code produces them
+(descending) -/
+def sides (H W : Nat) (selT selR selB selL : List Nat) : List (List Px) :=
+  [selT.map (fun c => (0, c)), selR.map (fun r => (r, W - 1)),
+   selB.map (fun c => (H - 1, c)), selL.map (fun r => (r, 0))]
+
+/-- `AreaBoundary.contour`: every side without its last vertex, concatenated -/
+def contour (ss : List (List Px)) : List Px := ss.flatMap (fun s => s.dropLast)
+
+/-- `_reverse_boundaries`: reverse the list of sides and each side -/
+def reverseSides (ss : List (List Px)) : List (List Px) := (ss.map List.reverse).reverse
+
+/-- strictly increasing selection from 0 to n-1 -/
+def goodAsc (n : Nat) (sel : List Nat) : Bool :=
+  sel.head? == some 0 && sel.getLast? == some (n - 1) && (sel.zip sel.tail).all (fun p => p.1 < p.2)
+
+/-- the exact-arithmetic selection `floor(i (n-1) / (k-1))`, i = 0..k-1 (what `np.linspace(0, n-1, k, dtype=int)`
+computes up to float rounding) -/
+def linSel (n k : Nat) : List Nat :=
+  if k ≤ 1 then [0] else (List.range k).map (fun i => i * (n - 1) / (k - 1))
+
+/-! ### driver -/
+open Wire
+
+def showPx (p : Px) : String := s!"{p.1},{p.2}"
+
 def handle : List String → Option String
+  | "ring" :: h :: w :: rest => do
+    -- ring <H> <W> <k> selT… <k> selR… <k> selB… <k> selL…  → goodness flags | contour | contour of the reversed sides
+    let h ← nat? h; let w ← nat? w
+    let (t, tl) ← takeList nat? rest
+    let (r, tl) ← takeList nat? tl
+    let (b, tl) ← takeList nat? tl
+    let (l, tl) ← takeList nat? tl
+    if tl ≠ [] then none else
+    let ss := sides h w t r b l
+    let good := [goodAsc w t, goodAsc h r, goodAsc w b.reverse, goodAsc h l.reverse]
+    let c := contour ss
+    let cr := contour (reverseSides ss)
+    some (" ".intercalate (good.map showBool) ++ " | " ++ " ".intercalate (c.map showPx) ++ " | " ++ " ".intercalate (cr.map showPx))
+  | ["linsel", n, k] => do
+    let n ← nat? n; let k ← nat? k
+    some (showList toString (linSel n k))
   | _ => none
 
 end PyresampleModel.C16
